@@ -25,6 +25,7 @@ import (
 	"strconv"
 	"strings"
 	"sync"
+	"sync/atomic"
 	"time"
 
 	"mosn.io/api"
@@ -160,6 +161,8 @@ func bRead(br *bufio.Reader) (*bFrame, error) {
 
 // ---------------------------------------------------------------------------------------------------------------------
 // MOSN side (once per process)
+
+var e2eBroken int32 // consecutive cases whose warm-up exchange did not complete
 
 var (
 	e2eOnce    sync.Once
@@ -742,11 +745,16 @@ func e2eRunPlan(world int, p *e2ePlan) e2eResult {
 	cl := newE2ECli()
 	defer cl.c.Close()
 	res := e2eResult{}
-	// warm-up: until the pool's connection is up, then extraWarm more (moves the upstream id counter)
+	// warm-up: until the pool's connection is up, then extraWarm more (moves the upstream id counter). Bounded: when the
+	// code under test cannot complete a single plain exchange the case is reported as such instead of being waited for.
 	okWarm := 0
-	for i := 0; i < 400 && okWarm < 1+p.extraWarm; i++ {
+	warmEnd := time.Now().Add(2500 * time.Millisecond)
+	if atomic.LoadInt32(&e2eBroken) >= 3 {
+		warmEnd = time.Now()
+	}
+	for i := 0; i < 400 && okWarm < 1+p.extraWarm && time.Now().Before(warmEnd); i++ {
 		id := uint32(e2eWarmID + i)
-		cl.c.Write(bRequest(id, 3000, bKV("service", e2eService(world, 'p'), "tok", fmt.Sprintf("w%d", i)), []byte("w")))
+		cl.c.Write(bRequest(id, 400, bKV("service", e2eService(world, 'p'), "tok", fmt.Sprintf("w%d", i)), []byte("w")))
 		var st uint16
 		got := e2eWait(func() bool {
 			cl.mu.Lock()
@@ -754,9 +762,8 @@ func e2eRunPlan(world int, p *e2ePlan) e2eResult {
 			s, ok := cl.warm[id]
 			st = s
 			return ok
-		}, e2eMaxWait)
+		}, time.Second)
 		if !got {
-			res.anomaly = "warmup-no-reply"
 			break
 		}
 		if st == 0 {
@@ -765,8 +772,22 @@ func e2eRunPlan(world int, p *e2ePlan) e2eResult {
 			time.Sleep(2 * time.Millisecond)
 		}
 	}
-	if okWarm < 1+p.extraWarm && res.anomaly == "" {
+	if okWarm < 1+p.extraWarm {
+		atomic.AddInt32(&e2eBroken, 1)
 		res.anomaly = "warmup-failed"
+		res.impl = "warmup-failed"
+		return res
+	}
+	atomic.StoreInt32(&e2eBroken, 0)
+	caseEnd := time.Now().Add(8 * time.Second) // budget of all waits of the case
+	e2eWait := func(cond func() bool, max time.Duration) bool {
+		if left := time.Until(caseEnd); left < max {
+			max = left
+			if max < 30*time.Millisecond {
+				max = 30 * time.Millisecond
+			}
+		}
+		return e2eWait(cond, max)
 	}
 	cl.mu.Lock()
 	cl.warm = nil // from here on every frame is recorded
@@ -1031,7 +1052,7 @@ func runE2E(c *hx.Ctx, rng *hx.Rng) {
 			for i := range next {
 				for try := 0; try < 3; try++ {
 					results[i] = e2eRunPlan(w, plans[i])
-					if results[i].anomaly == "" {
+					if results[i].anomaly == "" || results[i].anomaly == "warmup-failed" {
 						break
 					}
 					skews[i]++
